@@ -1,86 +1,211 @@
-import NasdaqModel.Model.Monitor
+import NasdaqModel.Lemmas.SessionLemmas
 /-
-Invariants of Model/Monitor.lean, proved per small step and lifted over event lists (C08, C09).
+What acceptance by the close-sequence monitor (`monRun l ≠ 9`) means in plain terms.
 -/
-namespace NasdaqModel.Monitor
+namespace NasdaqModel.Sess
 
-/-! ### generic: invariants lift over runs -/
+theorem mon_sink (o : Obs) : mon 9 o = 9 := by cases o <;> simp [mon]
 
-theorem run_nil (s : Sess) : s.run [] = s := rfl
-theorem run_cons (s : Sess) (e : Ev) (evs : List Ev) : s.run (e :: evs) = (s.step e).run evs := rfl
-theorem run_append (s : Sess) (a b : List Ev) : s.run (a ++ b) = (s.run a).run b := by
-  simp [Sess.run, List.foldl_append]
+theorem foldl_mon_sink (l : List Obs) : l.foldl mon 9 = 9 := by
+  induction l with
+  | nil => rfl
+  | cons o l ih => simp [List.foldl, mon_sink, ih]
 
-theorem run_inv {P : Sess → Prop} (hstep : ∀ s e, P s → P (s.step e)) :
-    ∀ (evs : List Ev) (s : Sess), P s → P (s.run evs) := by
-  intro evs
-  induction evs with
-  | nil => intro s h; exact h
-  | cons e evs ih => intro s h; exact ih _ (hstep s e h)
+theorem mon_ne_zero {p : Nat} (hp : p ≠ 0) (o : Obs) : mon p o ≠ 0 := by
+  cases o <;> simp [mon] <;> try omega
+  all_goals (split <;> omega)
 
-/-! ### field lemmas of the small steps -/
+theorem foldl_mon_ne_zero (l : List Obs) : ∀ p, p ≠ 0 → l.foldl mon p ≠ 0 := by
+  induction l with
+  | nil => intro p hp; exact hp
+  | cons o l ih => intro p hp; exact ih _ (mon_ne_zero hp o)
 
-section fields
-variable (s : Sess)
+/-- phases only go forward: a non-error step never decreases the phase -/
+theorem mon_mono (p : Nat) (o : Obs) (h : mon p o ≠ 9) : p ≤ mon p o := by
+  cases o <;> simp [mon] at h ⊢ <;> try omega
+  all_goals (split <;> simp_all)
 
-@[simp] theorem bump_now : s.bump.now = s.now + 1 := rfl
-@[simp] theorem bump_loc : s.bump.loc = s.loc := rfl
-@[simp] theorem bump_rem : s.bump.rem = s.rem := rfl
-@[simp] theorem bump_closed : s.bump.closed = s.closed := rfl
-@[simp] theorem bump_closeT : s.bump.closeT = s.closeT := rfl
-@[simp] theorem bump_closedByMon : s.bump.closedByMon = s.closedByMon := rfl
-@[simp] theorem bump_writes : s.bump.writes = s.writes := rfl
-@[simp] theorem bump_recvs : s.bump.recvs = s.recvs := rfl
+theorem foldl_mon_mono (l : List Obs) : ∀ p, l.foldl mon p ≠ 9 → p ≤ l.foldl mon p := by
+  induction l with
+  | nil => intro p _; exact Nat.le_refl _
+  | cons o l ih =>
+    intro p h
+    have h1 : mon p o ≠ 9 := by
+      intro h9; apply h; simp [List.foldl, h9, foldl_mon_sink]
+    exact Nat.le_trans (mon_mono p o h1) (ih _ h)
 
-@[simp] theorem sendMsg_now (o : Origin) : (s.sendMsg o).now = s.now := rfl
-@[simp] theorem sendMsg_rem (o : Origin) : (s.sendMsg o).rem = s.rem := rfl
-@[simp] theorem sendMsg_closed (o : Origin) : (s.sendMsg o).closed = s.closed := rfl
-@[simp] theorem sendMsg_closeT (o : Origin) : (s.sendMsg o).closeT = s.closeT := rfl
-@[simp] theorem sendMsg_closedByMon (o : Origin) : (s.sendMsg o).closedByMon = s.closedByMon := rfl
-@[simp] theorem sendMsg_recvs (o : Origin) : (s.sendMsg o).recvs = s.recvs := rfl
-@[simp] theorem sendMsg_writes (o : Origin) :
-    (s.sendMsg o).writes = { t := s.now, origin := o, live := !s.closed } :: s.writes := rfl
-@[simp] theorem sendMsg_loc (o : Origin) : (s.sendMsg o).loc = if o.isHb then s.loc else s.loc.ping := rfl
+theorem foldl_mon_prefix_ok (l1 l2 : List Obs) (p : Nat) (h : (l1 ++ l2).foldl mon p ≠ 9) : l1.foldl mon p ≠ 9 := by
+  intro h9
+  apply h
+  rw [List.foldl_append, h9, foldl_mon_sink]
 
-@[simp] theorem dataReceived_now (k : RecvKind) : (s.dataReceived k).now = s.now := rfl
-@[simp] theorem dataReceived_loc (k : RecvKind) : (s.dataReceived k).loc = s.loc := rfl
-@[simp] theorem dataReceived_rem (k : RecvKind) : (s.dataReceived k).rem = s.rem.ping := rfl
-@[simp] theorem dataReceived_closed (k : RecvKind) : (s.dataReceived k).closed = s.closed := rfl
-@[simp] theorem dataReceived_closeT (k : RecvKind) : (s.dataReceived k).closeT = s.closeT := rfl
-@[simp] theorem dataReceived_closedByMon (k : RecvKind) : (s.dataReceived k).closedByMon = s.closedByMon := rfl
-@[simp] theorem dataReceived_writes (k : RecvKind) : (s.dataReceived k).writes = s.writes := rfl
-@[simp] theorem dataReceived_recvs (k : RecvKind) : (s.dataReceived k).recvs = (s.now, k) :: s.recvs := rfl
+/-- counting: each of the three close events occurs at most once -/
+theorem count_tclose (l : List Obs) : ∀ p, l.foldl mon p ≠ 9 →
+    (p = 0 → l.count .tclose ≤ 1) ∧ (p ≠ 0 → l.count .tclose = 0) := by
+  induction l with
+  | nil => intro p _; simp
+  | cons o l ih =>
+    intro p h
+    have h1 : mon p o ≠ 9 := by
+      intro h9; apply h; simp [List.foldl, h9, foldl_mon_sink]
+    have ih' := ih (mon p o) h
+    by_cases ho : o = .tclose
+    · subst ho
+      have hp : p = 0 := by
+        by_cases hp : p = 0
+        · exact hp
+        · simp [mon, hp] at h1
+      subst hp
+      have := ih'.2 (by simp [mon])
+      simp [this]
+    · have hc : (o :: l).count .tclose = l.count .tclose := by
+        simp [List.count_cons, ho]
+      rw [hc]
+      constructor
+      · intro hp
+        subst hp
+        by_cases h0 : mon 0 o = 0
+        · exact ih'.1 h0
+        · rw [ih'.2 h0]; omega
+      · intro hp
+        exact ih'.2 (mon_ne_zero hp o)
 
-@[simp] theorem close_now (b : Bool) : (s.close b).now = s.now := by unfold Sess.close; split <;> rfl
-@[simp] theorem close_writes (b : Bool) : (s.close b).writes = s.writes := by unfold Sess.close; split <;> rfl
-@[simp] theorem close_recvs (b : Bool) : (s.close b).recvs = s.recvs := by unfold Sess.close; split <;> rfl
-@[simp] theorem close_closed (b : Bool) : (s.close b).closed = true := by
-  unfold Sess.close; split <;> simp_all
-theorem close_of_closed (b : Bool) (h : s.closed = true) : s.close b = s := by
-  unfold Sess.close; simp [h]
-theorem close_of_open (b : Bool) (h : s.closed = false) :
-    s.close b = { s with closed := true, closeT := s.now, closedByMon := b, loc := s.loc.stop, rem := s.rem.stop } := by
-  unfold Sess.close; simp [h]
+theorem count_cbEnter (l : List Obs) : ∀ p, l.foldl mon p ≠ 9 →
+    (p ≤ 1 → l.count .cbEnter ≤ 1) ∧ (2 ≤ p → l.count .cbEnter = 0) := by
+  induction l with
+  | nil => intro p _; simp
+  | cons o l ih =>
+    intro p h
+    have h1 : mon p o ≠ 9 := by
+      intro h9; apply h; simp [List.foldl, h9, foldl_mon_sink]
+    have ih' := ih (mon p o) h
+    have hm := mon_mono p o h1
+    by_cases ho : o = .cbEnter
+    · subst ho
+      have hp : p = 1 := by
+        by_cases hp : p = 1
+        · exact hp
+        · simp [mon, hp] at h1
+      subst hp
+      have := ih'.2 (by simp [mon])
+      simp [this]
+    · have hc : (o :: l).count .cbEnter = l.count .cbEnter := by
+        simp [List.count_cons, ho]
+      rw [hc]
+      constructor
+      · intro hp
+        by_cases h2 : mon p o ≤ 1
+        · exact ih'.1 h2
+        · rw [ih'.2 (by omega)]; omega
+      · intro hp
+        exact ih'.2 (by omega)
 
-end fields
+theorem count_cbExit (l : List Obs) : ∀ p, l.foldl mon p ≠ 9 →
+    (p ≤ 2 → l.count .cbExit ≤ 1) ∧ (3 ≤ p → l.count .cbExit = 0) := by
+  induction l with
+  | nil => intro p _; simp
+  | cons o l ih =>
+    intro p h
+    have h1 : mon p o ≠ 9 := by
+      intro h9; apply h; simp [List.foldl, h9, foldl_mon_sink]
+    have ih' := ih (mon p o) h
+    have hm := mon_mono p o h1
+    by_cases ho : o = .cbExit
+    · subst ho
+      have hp : p = 2 := by
+        by_cases hp : p = 2
+        · exact hp
+        · simp [mon, hp] at h1
+      subst hp
+      have := ih'.2 (by simp [mon])
+      simp [this]
+    · have hc : (o :: l).count .cbExit = l.count .cbExit := by
+        simp [List.count_cons, ho]
+      rw [hc]
+      constructor
+      · intro hp
+        by_cases h2 : mon p o ≤ 2
+        · exact ih'.1 h2
+        · rw [ih'.2 (by omega)]; omega
+      · intro hp
+        exact ih'.2 (by omega)
 
-@[simp] theorem ping_interval (m : Mon) : m.ping.interval = m.interval := rfl
-@[simp] theorem ping_tol (m : Mon) : m.ping.tol = m.tol := rfl
-@[simp] theorem ping_stop (m : Mon) : m.ping.stopWhenNoActivity = m.stopWhenNoActivity := rfl
-@[simp] theorem ping_pinged (m : Mon) : m.ping.pinged = true := rfl
-@[simp] theorem ping_missed (m : Mon) : m.ping.missed = m.missed := rfl
-@[simp] theorem ping_left (m : Mon) : m.ping.left = m.left := rfl
-@[simp] theorem ping_running (m : Mon) : m.ping.running = m.running := rfl
-@[simp] theorem stop_interval (m : Mon) : m.stop.interval = m.interval := rfl
-@[simp] theorem stop_tol (m : Mon) : m.stop.tol = m.tol := rfl
-@[simp] theorem stop_stop (m : Mon) : m.stop.stopWhenNoActivity = m.stopWhenNoActivity := rfl
-@[simp] theorem stop_pinged (m : Mon) : m.stop.pinged = m.pinged := rfl
-@[simp] theorem stop_missed (m : Mon) : m.stop.missed = m.missed := rfl
-@[simp] theorem stop_left (m : Mon) : m.stop.left = m.left := rfl
-@[simp] theorem stop_running (m : Mon) : m.stop.running = false := rfl
+/-- if the phase has left 0, the transport-close event is in the trace -/
+theorem tclose_mem_of_phase (l : List Obs) (h9 : l.foldl mon 0 ≠ 9) (h : 1 ≤ l.foldl mon 0) : Obs.tclose ∈ l := by
+  induction l with
+  | nil => simp at h
+  | cons o l ih =>
+    by_cases ho : o = .tclose
+    · subst ho; simp
+    · have h0 : mon 0 o = 0 ∨ mon 0 o = 9 := by
+        cases o <;> simp_all [mon]
+      rcases h0 with h0 | h0
+      · simp only [List.foldl, h0] at h h9
+        exact List.mem_cons_of_mem _ (ih h9 h)
+      · simp [List.foldl, h0, foldl_mon_sink] at h9
 
-/-- the life of a session never shrinks and is frozen by close -/
-theorem life_open (s : Sess) (h : s.closed = false) : s.life = s.now := by simp [Sess.life, h]
-theorem life_closed (s : Sess) (h : s.closed = true) : s.life = s.closeT := by simp [Sess.life, h]
+theorem cbEnter_mem_of_phase (l : List Obs) : ∀ p, p ≤ 1 → l.foldl mon p ≠ 9 → 2 ≤ l.foldl mon p → Obs.cbEnter ∈ l := by
+  induction l with
+  | nil => intro p hp _ h; simp at h; omega
+  | cons o l ih =>
+    intro p hp h9 h
+    by_cases ho : o = .cbEnter
+    · subst ho; simp
+    · have h1 : mon p o ≠ 9 := by
+        intro e; apply h9; simp [List.foldl, e, foldl_mon_sink]
+      have h0 : mon p o ≤ 1 := by
+        cases o <;> simp_all [mon] <;> (try omega)
+        all_goals (split at h1 <;> simp_all)
+      exact List.mem_cons_of_mem _ (ih _ h0 h9 h)
 
-end NasdaqModel.Monitor
+/-- **order 1**: the close callback is entered only after the transport has been closed -/
+theorem tclose_before_cbEnter (l l1 l2 : List Obs) (h : monRun l ≠ 9) (e : l = l1 ++ Obs.cbEnter :: l2) :
+    Obs.tclose ∈ l1 := by
+  subst e
+  have hp : (l1 ++ [Obs.cbEnter]).foldl mon 0 ≠ 9 := by
+    apply foldl_mon_prefix_ok _ l2
+    simpa [monRun] using h
+  rw [List.foldl_append] at hp
+  have h1 : l1.foldl mon 0 = 1 := by
+    by_cases h1 : l1.foldl mon 0 = 1
+    · exact h1
+    · simp [List.foldl, mon, h1] at hp
+  exact tclose_mem_of_phase l1 (by omega) (by omega)
+
+/-- **order 2**: the close callback returns only after it was entered -/
+theorem cbEnter_before_cbExit (l l1 l2 : List Obs) (h : monRun l ≠ 9) (e : l = l1 ++ Obs.cbExit :: l2) :
+    Obs.cbEnter ∈ l1 := by
+  subst e
+  have hp : (l1 ++ [Obs.cbExit]).foldl mon 0 ≠ 9 := by
+    apply foldl_mon_prefix_ok _ l2
+    simpa [monRun] using h
+  rw [List.foldl_append] at hp
+  have h1 : l1.foldl mon 0 = 2 := by
+    by_cases h1 : l1.foldl mon 0 = 2
+    · exact h1
+    · simp [List.foldl, mon, h1] at hp
+  exact cbEnter_mem_of_phase l1 0 (by omega) (by omega) (by omega)
+
+/-- **order 3**: no message callback is started once the transport has been closed -/
+theorem no_msgEnter_after_tclose (l l1 l2 : List Obs) (n : Nat) (h : monRun l ≠ 9)
+    (e : l = l1 ++ Obs.msgEnter n :: l2) : Obs.tclose ∉ l1 ∧ Obs.cbEnter ∉ l1 := by
+  subst e
+  have hp : (l1 ++ [Obs.msgEnter n]).foldl mon 0 ≠ 9 := by
+    apply foldl_mon_prefix_ok _ l2
+    simpa [monRun] using h
+  rw [List.foldl_append] at hp
+  have h1 : l1.foldl mon 0 = 0 := by
+    by_cases h1 : l1.foldl mon 0 = 0
+    · exact h1
+    · simp [List.foldl, mon, h1] at hp
+  have key : ∀ (o : Obs), (o = .tclose ∨ o = .cbEnter) → o ∉ l1 := by
+    intro o ho hmem
+    obtain ⟨a, b, hab⟩ := List.append_of_mem hmem
+    rw [hab, List.foldl_append] at h1
+    have : mon (a.foldl mon 0) o ≠ 0 := by
+      rcases ho with rfl | rfl <;> simp [mon] <;> split <;> omega
+    simp only [List.foldl] at h1
+    exact foldl_mon_ne_zero b _ this h1
+  exact ⟨key _ (Or.inl rfl), key _ (Or.inr rfl)⟩
+
+end NasdaqModel.Sess
